@@ -8,11 +8,12 @@ TRACE_CFG = """SPECIFICATION TraceSpec
 CONSTANTS
   Dev = @DEV@
   Meaning <- TraceMeaning
+  ExtMon <- TraceExtMon
 @INV@
 POSTCONDITION TraceAccepted
 CHECK_DEADLOCK FALSE
 """
-CORE_TRACE_INV = "INVARIANTS TraceC01 TraceC05 CleanTrees C03Fold C06State C07State TraceEdge"
+CORE_TRACE_INV = "INVARIANTS TraceC01 TraceC05 CleanTrees C03Fold C06State C07State TraceEdge LockInfoInv"
 
 
 def mc_cfg(base_cfg, flags, edges=False):
@@ -145,6 +146,37 @@ def core_check(cfg):
         collect(prop, res2, known_seen, violations, "random")
         log(f"[{prop}] random histories: {len(rfiles)} x {t['random_len']} requests, {nrnd} records, {time.time()-t3:.0f}s")
 
+        # 4. further configurations of the same property (other server settings): same three steps
+        extras = []
+        for ex in cfg.get("extras", []):
+            t4 = time.time()
+            exst = {"distinct": 0, "generated": 0}
+            if not os.environ.get("VERIF_DEV_SKIP_MC"):
+                out = vlib.tlc(d, ex["mc"], mc_cfg(ex["mc_cfg"], []), workers=8, timeout=1800, heap="8g")
+                err, exst = vlib.tlc_error(out), vlib.tlc_stats(out)
+                if err or not exst:
+                    raise ToolError("model checking of the ideal specification (%s) failed: %s\n%s" % (ex["mc"], err, out[-3000:]))
+            e_edges, _, e_meaning, e_init = vlib.edge_dump(d, ex["mc"], mc_cfg(ex["mc_cfg"], known, edges=True), timeout=1800)
+            e_walks, e_nstates, e_nedges = vlib.make_walks(e_edges, e_init, seed)
+            e_req = os.path.join(d, "req_%s.ndjson" % ex["name"])
+            vlib.write_requests(e_req, e_walks, e_meaning, proj=True, extra_hdr=ex.get("hdr"))
+            e_files = vlib.split_requests(e_req, 8, d)
+            e_rfiles = []
+            for i in range(t["random_runs"]):
+                rnd = random.Random(seed * 7919 + i)
+                hdr, reqs = ex["gen"](rnd, t["random_len"])
+                p = os.path.join(d, "req_%s_rnd%d.ndjson" % (ex["name"], i))
+                with open(p, "w") as f:
+                    f.write(json.dumps(dict(hdr, **(ex.get("hdr") or {}))) + "\n")
+                    for r in reqs:
+                        f.write(json.dumps(r) + "\n")
+                e_rfiles.append(p)
+            e_n, e_res = run_and_validate(d, ex["name"], e_files + e_rfiles, "Trace_Core", known, 1200)
+            collect(prop, e_res, known_seen, violations, ex["name"])
+            nrec += e_n
+            extras.append({"name": ex["name"], "states": exst["distinct"], "edges": e_nedges, "walks": len(e_walks), "records": e_n})
+            log(f"[{prop}] {ex['name']}: TLC {exst['distinct']} states; {e_nedges} edges in {len(e_walks)} walks + {len(e_rfiles)} random histories, {e_n} records, {time.time()-t4:.0f}s")
+
         cov = {
             "states": st["distinct"], "transitions": st["generated"],
             "traces_validated_against_impl": len(files) + len(rfiles),
@@ -152,7 +184,7 @@ def core_check(cfg):
             "exhaustive": True,
             "mc_config": t["mc_cfg"], "abstract_states": nstates, "edges_replayed": nedges,
             "ops_covered": ops, "trace_records_validated": nrec + nrnd,
-            "random_histories": len(rfiles), "random_history_length": t["random_len"],
+            "random_histories": len(rfiles), "random_history_length": t["random_len"], "further_configurations": extras,
             "build_s": round(build_s, 1), "mc_s": round(mc_s, 1),
             "explanation": "TLC exhaustive on the intended design within the MC config bounds; every edge of the "
                            "bounded as-is graph replayed into the real core and the recorded trace validated by TLC; "
@@ -181,6 +213,9 @@ CHECKS["C01"] = core_check({
 })
 
 
+EXTRAS = {"C08": [{"name": "extmon", "mc": "MC_C08x", "mc_cfg": "MC_C08x.cfg", "hdr": {"extmon": True}, "gen": gens.gen_c08x}]}
+
+
 def reg(prop, mc, gen, quick, thorough):
     base_q = {"mc_cfg": f"{mc}.cfg", "edge_cfg": f"{mc}.cfg", "random_runs": 4, "random_len": 1200, "chunks": 8}
     base_t = {"mc_cfg": f"{mc}_thorough.cfg", "edge_cfg": f"{mc}.cfg", "random_runs": 32, "random_len": 5000, "chunks": 8,
@@ -188,7 +223,7 @@ def reg(prop, mc, gen, quick, thorough):
     base_q.update(quick)
     base_t.update(thorough)
     CHECKS[prop] = core_check({"mc": mc, "gen": gen, "assumptions": CORE_ASSUME, "quick": base_q, "thorough": base_t,
-                               "meaning_from_mc": True})
+                               "meaning_from_mc": True, "extras": EXTRAS.get(prop, [])})
 
 
 reg("C03", "MC_C03", gens.gen_c03, {}, {})
@@ -196,6 +231,7 @@ reg("C05", "MC_C05", gens.gen_c05, {}, {})
 reg("C06", "MC_C06", gens.gen_c06, {}, {})
 reg("C07", "MC_C07", gens.gen_c07, {}, {})
 reg("C08", "MC_C08", gens.gen_c08, {}, {})
+
 
 
 def c04_check(prop, tier, seed, replay):
